@@ -60,13 +60,13 @@ def full_alphabet():
     return s
 
 
-QUICK_NAMES = """OP_0 OP_1NEGATE OP_1 OP_2 OP_16 push(00) push(80) push(ffffff7f) push(ffffffff7f) push(0100)
+QUICK_NAMES = """OP_0 OP_1NEGATE OP_1 OP_2 push(00) push(ffffff7f) push(ffffffff7f) push(0100)
 push(05)!min PUSHDATA1(07)!min
 OP_RESERVED OP_NOP OP_VER OP_IF OP_NOTIF OP_VERIF OP_ELSE OP_ENDIF OP_VERIFY OP_RETURN
-OP_TOALTSTACK OP_FROMALTSTACK OP_2DROP OP_2DUP OP_IFDUP OP_DEPTH OP_DROP OP_DUP OP_PICK OP_ROLL OP_SWAP OP_TUCK
+OP_TOALTSTACK OP_FROMALTSTACK OP_2DROP OP_IFDUP OP_DEPTH OP_DROP OP_DUP OP_PICK OP_ROLL OP_SWAP
 OP_CAT OP_SIZE OP_EQUAL OP_EQUALVERIFY OP_RESERVED1
-OP_1ADD OP_2MUL OP_NEGATE OP_NOT OP_0NOTEQUAL OP_ADD OP_MUL OP_NUMEQUALVERIFY OP_MIN OP_WITHIN
-OP_HASH160 OP_CODESEPARATOR OP_CHECKSIG OP_CHECKSIGVERIFY OP_CHECKMULTISIG OP_CHECKMULTISIGVERIFY
+OP_1ADD OP_2MUL OP_NEGATE OP_NOT OP_0NOTEQUAL OP_ADD OP_NUMEQUALVERIFY OP_WITHIN
+OP_HASH160 OP_CODESEPARATOR OP_CHECKSIG OP_CHECKSIGVERIFY OP_CHECKMULTISIG
 OP_NOP1 OP_CLTV OP_CSV OP_NOP10""".split()
 
 DEPTH3_NAMES = """OP_0 OP_1NEGATE OP_1 OP_2 push(ffffffff7f) push(0100) push(05)!min
@@ -619,9 +619,18 @@ def _replay_once(ctx, scratch, rp):
         oc, rows, base = check_tx_case((ctx.bdir, scratch, rp["tc"]))
         return [(k, w) for k, w, _, _ in rows], {"outcome": oc, "batch": base}
     if rp["kind"] == "variant":
-        rows, n = check_variants((ctx.bdir, scratch, rp["rep"]))
-        rows = [(k, w) for k, w, r, _ in rows if r["delivery"] == rp["delivery"] and r["option"] == rp["option"]]
-        return rows, {"baseline": rp["rep"]["base"]}
+        rep = rp["rep"]
+
+        def obs(d, xargs, xenv):
+            b = run_batch(ctx.bdir, scratch, d, xargs, xenv, rep["pre"], rep["script"], rep["stack"])
+            return {"rc": b["rc"], "sig": b["sig"], "out": b["out"], "errtext": first_error_line(b["err"]), "cc": pu.crash_class(b), "hang": b["hang"]}
+        base = obs(DELIVERIES[0], [], {})        # the baseline is re-measured, not taken from the record
+        oname, xargs, xenv = next(o for o in option_variants() if o[0] == rp["option"])
+        got = obs(rp["delivery"], xargs, xenv)
+        nm = {"out": "stdout", "rc": "exit-status", "sig": "signal", "errtext": "error-line", "cc": "crash-class", "hang": "hang"}
+        rows = [("option-variance:%s:%s:%s" % (rp["delivery"], oname, nm[f]), "%s: %s differs: baseline %r, under %s %s %r" % (
+            rep["label"], nm[f], base[f], rp["delivery"], oname, got[f])) for f in ("hang", "sig", "rc", "out", "errtext", "cc") if got[f] != base[f]][:1]
+        return rows, {"baseline": base, "variant": got}
     if rp["kind"] == "verbose":
         rows, n = check_verbose((ctx.bdir, scratch, rp["rep"]))
         return [(k, w) for k, w, r, _ in rows if r["delivery"] == rp["delivery"] and r["option"] == rp["option"]], {}
